@@ -13,6 +13,7 @@ var encs = []string{"identity", "gzip", "deflate", "snappy"}
 
 // dirSpec is one direction of a case: the byte stream, how it is cut, where END_STREAM goes.
 type dirSpec struct {
+	pre    [][]hf // header blocks of this direction BEFORE the main one (1xx interim responses, ...)
 	dir    string // "c" | "s"
 	enc    string
 	hdrs   []hf
@@ -46,8 +47,8 @@ func tables(enc string, stream []byte, seen map[string]bool) []string {
 			add("dec " + enc + " " + core.Hex(m.payload) + " !")
 			continue
 		}
-		add("dec " + enc + " " + core.Hex(m.payload) + " " + core.Hex(p))
-		add("cmp " + enc + " " + core.Hex(p) + " " + core.Hex(realEncode(enc, p, 0)))
+		add("dec " + enc + " " + core.Hex(m.payload) + " " + tokOf(p))
+		add("cmp " + enc + " " + tokOf(p) + " " + core.Hex(realEncode(enc, p, 0)))
 	}
 	if any {
 		// an END_STREAM on an empty DATA frame is re-emitted with the previous compressed flag
@@ -79,6 +80,9 @@ func grpcHdrs(dir, enc string, rich bool) []hf {
 // opsOf renders the per-direction op lists (headers, DATA frames, end-of-stream).
 func opsOf(s dirSpec) []string {
 	var ops []string
+	for _, b := range s.pre {
+		ops = append(ops, hdrLine(s.dir, false, b))
+	}
 	ops = append(ops, hdrLine(s.dir, false, s.hdrs))
 	for i, f := range s.frames {
 		es := s.eos == "last" && i == len(s.frames)-1
@@ -409,7 +413,11 @@ func randSpec(r *core.Rand, dir string, maxMsgs, maxLen int) dirSpec {
 	if r.Chance(1, 4) {
 		frames = sprinkleEmpty(r, frames, eos, r.Range(1, 4))
 	}
-	return dirSpec{dir: dir, enc: enc, hdrs: hs, frames: frames, eos: eos}
+	spec := dirSpec{dir: dir, enc: enc, hdrs: hs, frames: frames, eos: eos}
+	if r.Chance(1, 5) {
+		spec.pre, spec.hdrs = blocksFor(r, dir, enc, -1)
+	}
+	return spec
 }
 
 func genRandom(r *core.Rand, cases, maxMsgs, maxLen int, emit func([]string)) {
@@ -528,6 +536,8 @@ func (P) Gen(r *core.Rand, tier string, emit func([]string)) {
 		genStreams(r.Fork(), 4000, emit)
 		genCodec(r.Fork(), 12, emit)
 		genBigThenSmall(r.Fork(), tier, emit)
+		genHeaderBlocks(r.Fork(), 10, emit)
+		genBigDecompressed(r.Fork(), tier, emit)
 		return
 	}
 	genExhaustive(r.Fork(), 0, 13, 1, emit)
@@ -541,4 +551,6 @@ func (P) Gen(r *core.Rand, tier string, emit func([]string)) {
 	genStreams(r.Fork(), 600, emit)
 	genCodec(r.Fork(), 3, emit)
 	genBigThenSmall(r.Fork(), tier, emit)
+	genHeaderBlocks(r.Fork(), 2, emit)
+	genBigDecompressed(r.Fork(), tier, emit)
 }
